@@ -211,6 +211,7 @@ def Server.reopen (s : Server) : Server :=
 
 inductive SOp where
   | conn (p : Pending) | svc | tx (ca : Nat) (d : Bytes) | rm (ca : Nat) | close | reopen
+  | rxix (ca : Nat) | closeix (ca : Nat) | closeall
 deriving Repr
 
 inductive Status where
@@ -229,11 +230,26 @@ def Server.step (s : Server) : SOp → Server × Status
   | .svc => let r := s.service; (r.1, statusOf r.2)
   | .tx ca d =>
     match dictGet s.ixes ca with
-    | none => (s, .skip)
+    | none => (s, .raised .other)   -- ValueError("Invalid connection address"), nothing changed
     | some _ => ({ s with ixes := mapKey s.ixes ca fun r => { r with c := { r.c with txbs := r.c.txbs ++ d } } }, .ok)
+  | .rxix ca =>   -- `serviceReceivesIx(ca)`
+    match dictGet s.ixes ca with
+    | none => (s, .raised .other)
+    | some r =>
+      match r.serviceReceives with
+      | (r', none) => ({ s with ixes := mapKey s.ixes ca fun _ => r' }, .ok)
+      | (r', some e) =>
+        if catches Gen.Tcp.recvIxCatchesOSError e then
+          ({ s with ixes := dictDel s.ixes ca, gone := r'.close :: s.gone }, .ok)
+        else ({ s with ixes := mapKey s.ixes ca fun _ => r' }, .raised e)
+  | .closeix ca =>   -- `closeIx(ca)`: the remoter stays in the table, closed
+    match dictGet s.ixes ca with
+    | none => (s, .raised .other)
+    | some _ => ({ s with ixes := mapKey s.ixes ca Rem.close }, .ok)
+  | .closeall => ({ s with ixes := s.ixes.map fun (ca, r) => (ca, r.close) }, .ok)
   | .rm ca =>
     match dictGet s.ixes ca with
-    | none => (s, .skip)
+    | none => (s, .raised .other)
     | some r => ({ s with ixes := dictDel s.ixes ca, gone := r.close :: s.gone }, .ok)
   | .close => (s.close, .ok)
   | .reopen => (s.reopen, .ok)
